@@ -50,7 +50,8 @@ def draw_env(rng, tool, force_stdin=False):
         ok = rng.choice(outs) if rng.random() < 0.6 else "path"
         pre = rng.choice((1, 100, 10_000, 1_000_000)) if ok == "path" and rng.random() < 0.35 else 0
         e = Env(ik, ok, rng.choice(CHUNK_KINDS), rng.choice(CHUNK_KINDS),
-                rng.getrandbits(32), rng.getrandbits(32), pre)
+                rng.getrandbits(32), rng.getrandbits(32), pre,
+                unbuf=(ok != "path" and rng.random() < 0.1))
         if env_valid(tool, e):
             return e
     return Env()
@@ -450,6 +451,9 @@ def real_cli(tool, opts, data, env, tmpdir):
     elif env.out_kind == "dash":
         argv.append("-")
     envv = dict(os.environ, PYTHONPATH=REPO, PYTHONDONTWRITEBYTECODE="1")
+    envv.pop("PYTHONUNBUFFERED", None)
+    if env.unbuf:
+        envv["PYTHONUNBUFFERED"] = "1"
     p = subprocess.run([PYTHON, "-m", "coco." + tool] + argv, input=stdin if stdin is not None else b"",
                        capture_output=True, env=envv, cwd=tmpdir, timeout=300)
     if env.out_kind == "path":
